@@ -38,6 +38,22 @@ Section Orc.
   Definition home_of (x : sx) : option str := opt_of_sx sx_str x.
   Definition msg_of (x : sx) : option str := opt_of_sx sx_str x.
 
+  (* a layer on the wire: (kind text) with kind in text/absent/permission/oserror/decode/other *)
+  Definition layer_of (x : sx) : read_result :=
+    let k := sx_str (sx_nth 0 x) in
+    if str_eqb k $"text" then RText (sx_str (sx_nth 1 x))
+    else if str_eqb k $"permission" then RPermission
+    else if str_eqb k $"oserror" then ROSError
+    else if str_eqb k $"decode" then RDecode
+    else if str_eqb k $"other" then ROther
+    else RAbsent.
+  Definition sx_stage (a : stage_answer) : sx :=
+    match a with
+    | AnswerAsk => L [A $"ask"]
+    | AnswerDefer => L [A $"defer"]
+    | Analyse cs => L [A $"analyse"; L (map sx_config cs)]
+    end.
+
   Definition entry (cmd : str) (args : list sx) : option sx :=
     let a := arg args in
     if is_cmd cmd "cfg_parse" then
@@ -56,6 +72,8 @@ Section Orc.
                             sx_of_bool (wf_rule (home_of (a 4%nat)) sp (sx_str (a 1%nat)) (sx_bool (a 2%nat)) (msg_of (a 3%nat)))]
             | None => L []
             end)
+    else if is_cmd cmd "cfg_stage" then
+      Some (sx_stage (config_stage (home_of (a 0%nat)) o_expu (map layer_of (sx_list (a 1%nat)))))
     else if is_cmd cmd "cfg_unescape" then Some (A (unescape (sx_str (a 0%nat))))
     else if is_cmd cmd "cfg_escape" then Some (A (escape (sx_str (a 0%nat))))
     else if is_cmd cmd "cfg_extract" then
